@@ -97,7 +97,7 @@ def generate(tier, rng):
   # then another value, and re-run the first-built objects at the very end.
   for kind, vals in (('fedprox', [0.5, 0.0, 0.25]), ('mimelite_gen', [2.0, 1.0, 0.5]), ('mime_gen', [0.5, 1.0, 2.0])):
     for noise in ((True,) if tier == 'quick' else (True, False)):
-      for v in vals:
+      for v in (vals if tier != 'quick' or kind == 'fedprox' else vals[:2]):
         c = _case(rng, kind, [3, 5, 2])
         c['noise'], c['copt'], c['sopt'], c['hp'] = noise, SGD(0.125), SGD(1.0), _hp(HPS[0], 3)
         if kind == 'fedprox':
@@ -110,6 +110,8 @@ def generate(tier, rng):
   # WAVE3 item 2 (seeded C12-t2): batching seed 0 is a valid seed, not "unset": clients with several batches per epoch so
   # that the shuffle order matters; items 1 / 7: delivery forms, debug backend and the jit backend under disable_jit
   for j, kind in enumerate(KINDS):
+    if tier == 'quick' and kind in ('fedprox0', 'mimelite_gen', 'mime_gen', 'apfl_noise'):
+      continue
     c = _case(rng, kind, [7, 5, 9])
     c['hp'] = _hp((2, None, 1, False) if kind == 'mime1' else (2, 2, None, False), 0)
     c['rounds'] = [[['0', 0], ['1', 1], ['2', 2]], [['2', 3], ['0', 0]], [['1', 5], ['0', 7], ['2', 0]]]
@@ -190,6 +192,12 @@ def generate(tier, rng):
       c['noise'] = kind != 'apfl'
       c['flags'] = flag
       yield c
+  # round-6 seed C01-x1: batches spanning more than one extra pass over a small dataset (batch_size 2N+1, 3N, 3N+1)
+  for j, (kind, n, bs) in enumerate((('fedprox0', 2, 5), ('hypcluster', 3, 9), ('mimelite1', 2, 7), ('apfl', 3, 10), ('fedprox', 5, 11), ('mime_gen', 4, 12))):
+    c = _case(rng, kind, [n, 0, n + 1])
+    c['hp'] = _hp((bs, 2, None, False) if j % 2 else (bs, None, 3, False), j)
+    c['rounds'] = [[['2', 1], ['0', 2], ['1', 3]], [['0', 4], ['2', 5]]]
+    yield c
   # corners: a round without examples in the middle of a run, a round without clients, per kind
   for kind in KINDS:
     c = _case(rng, kind, [3, 0, 0, 4])
@@ -203,11 +211,14 @@ def generate(tier, rng):
     yield c
     again.append(c)
     # a single client that is the whole population, one batch holding its whole dataset, applied three times
-    c = _case(rng, kind, [4])
-    c['hp'] = _hp((4, None, 1, False) if kind == 'mime1' else (4, 1, None, False), 2)
-    c['rounds'] = [[['0', 1]], [['0', 2]], [['0', 3]]]
-    c['sopt'] = SGD(0.5, 0.5)
-    yield c
+    if not (tier == 'quick' and kind in ('fedprox0', 'apfl_noise', 'mimelite_gen', 'mime1')):
+      c = _case(rng, kind, [4])
+      c['hp'] = _hp((4, None, 1, False) if kind == 'mime1' else (4, 1, None, False), 2)
+      c['rounds'] = [[['0', 1]], [['0', 2]], [['0', 3]]]
+      c['sopt'] = SGD(0.5, 0.5)
+      yield c
+    if tier == 'quick' and kind in ('fedprox', 'apfl', 'apfl_noise', 'mimelite1'):
+      continue
     c = _case(rng, kind, [2, 5])        # a round without clients in the middle of a run
     c['rounds'] = [[['0', 1], ['1', 2]], [], [['1', 5], ['0', 7]]]
     if kind in ('mime_gen', 'mimelite_gen'):
@@ -218,7 +229,7 @@ def generate(tier, rng):
       sizes = rng.choice(SIZES) if rng.random() < 0.6 else [rng.randint(0, 9) for _ in range(rng.randint(1, 6))]
       yield _case(rng, kind, sizes)
   # the first-built algorithm objects again, after all the others exist (run on fresh populations)
-  for c in again[:6]:
+  for c in again[:(4 if tier == 'quick' else 8)]:
     c2 = _case(rng, c['kind'], [4, 1, 3])
     for k in ('copt', 'sopt', 'hp', 'noise', 'mu', 'slr', 'coef', 'reg', 'kind'):
       c2[k] = c[k]
@@ -534,6 +545,10 @@ def oracle(case, obs):
   for k in ('reinit', 'fresh'):
     if obs['a'] and (k == 'reinit' or case.get('fresh')) and (obs.get(k) is None or not fs.close(obs[k], obs['a'][0], 1e-7)):
       out.append((f'{kind}-{k}-differs', f'round 0 repeated from init() {"on a freshly built object" if k == "fresh" else "called again"}: {obs.get(k)} vs {obs["a"][0]}'))
+  for c, st in obs.get('streams', {}).items():
+    if not fs.stream_content_ok(len(case['pop'][c]['y']), st):
+      out.append(('batch-stream-content', f'client {c}: the batches {st} are not consecutive passes over the dataset'))
+      break
   if obs['b'] is not None:
     tot = [sum(len(case['pop'][c]['y']) for c, _ in rnd) for rnd in case['rounds']]
     ref = _ref_fedavg_chain(case, obs, case['mu'] if kind == 'fedprox' else None)
